@@ -72,7 +72,7 @@ func emit(id *int, ops []*op) {
 			obs = "PANIC"
 		}
 		if obs == "" {
-			obs = fmt.Sprintf("%d|%s", init.Size(), hx.Hex(buf.Bytes()))
+			obs = fmt.Sprintf("%d|%s|%s", init.Size(), hx.Hex(buf.Bytes()), trexInfo(init, buf.Bytes()))
 		}
 		fmt.Fprintf(out, "I\t%d\t%s\t%s\n", *id, os, obs)
 		*id++
@@ -555,91 +555,7 @@ func checkRoundTrip(init *mp4.InitSegment, adds []*op, descs [][]*op, wit string
 	if sDec != sBuilt {
 		fail("DecodeFile", "state-differs", wit, "projected state of the decoded init differs from the built one")
 	}
-	// fragments for every track id
-	for _, t := range init.Moov.Traks {
-		id := t.Tkhd.TrackID
-		frag, err := mp4.CreateFragment(7, id)
-		if err != nil {
-			fail("CreateFragment", "error", wit, err.Error())
-			continue
-		}
-		want := []mp4.FullSample{sampleFor(id, 0), sampleFor(id, 1)}
-		for _, s := range want {
-			frag.AddFullSample(s)
-		}
-		var fb bytes.Buffer
-		fb.Write(enc)
-		if err := frag.Encode(&fb); err != nil {
-			fail("Fragment.Encode", "error", wit, err.Error())
-			continue
-		}
-		var ff *mp4.File
-		if p := hx.Try(func() { ff, err = mp4.DecodeFile(bytes.NewReader(fb.Bytes())) }); p != "" || err != nil {
-			fail("DecodeFile", "fragment-decode-fails", wit, fmt.Sprintf("init+fragment for track %d: panic %q err %v", id, p, err))
-			continue
-		}
-		if len(ff.Segments) != 1 || len(ff.Segments[0].Fragments) != 1 {
-			fail("DecodeFile", "fragment-structure", wit, "init+fragment does not decode to one segment with one fragment")
-			continue
-		}
-		trex, ok := ff.Init.Moov.Mvex.GetTrex(id)
-		if !ok {
-			fail("MvexBox.GetTrex", "no-trex", wit, fmt.Sprintf("no trex for track %d", id))
-			continue
-		}
-		var got []mp4.FullSample
-		if p := hx.Try(func() { got, err = ff.Segments[0].Fragments[0].GetFullSamples(trex) }); p != "" || err != nil || !sameSamples(got, want) {
-			fail("Fragment.GetFullSamples", "fragment-samples", wit, fmt.Sprintf("track %d: samples read back differ (panic %q err %v)", id, p, err))
-		}
-	}
-	if n := len(init.Moov.Traks); n >= 2 {
-		ids := []uint32{}
-		for _, t := range init.Moov.Traks {
-			ids = append(ids, t.Tkhd.TrackID)
-		}
-		frag, err := mp4.CreateMultiTrackFragment(9, ids)
-		if err != nil {
-			fail("CreateMultiTrackFragment", "error", wit, err.Error())
-			return
-		}
-		want := map[uint32][]mp4.FullSample{}
-		for _, id := range ids {
-			for j := 0; j < 2; j++ {
-				s := sampleFor(id, j)
-				if err := frag.AddFullSampleToTrack(s, id); err != nil {
-					fail("Fragment.AddFullSampleToTrack", "error", wit, err.Error())
-					return
-				}
-				want[id] = append(want[id], s)
-			}
-		}
-		var fb bytes.Buffer
-		fb.Write(enc)
-		if err := frag.Encode(&fb); err != nil {
-			fail("Fragment.Encode", "multi-error", wit, err.Error())
-			return
-		}
-		var ff *mp4.File
-		if p := hx.Try(func() { ff, err = mp4.DecodeFile(bytes.NewReader(fb.Bytes())) }); p != "" || err != nil {
-			fail("DecodeFile", "multi-fragment-decode-fails", wit, fmt.Sprintf("panic %q err %v", p, err))
-			return
-		}
-		if len(ff.Segments) != 1 || len(ff.Segments[0].Fragments) != 1 {
-			fail("DecodeFile", "multi-fragment-structure", wit, "init+multi-track fragment does not decode to one fragment")
-			return
-		}
-		for _, id := range ids {
-			trex, ok := ff.Init.Moov.Mvex.GetTrex(id)
-			if !ok {
-				fail("MvexBox.GetTrex", "no-trex", wit, fmt.Sprintf("no trex for track %d", id))
-				continue
-			}
-			var got []mp4.FullSample
-			if p := hx.Try(func() { got, err = ff.Segments[0].Fragments[0].GetFullSamples(trex) }); p != "" || err != nil || !sameSamples(got, want[id]) {
-				fail("Fragment.GetFullSamples", "multi-fragment-samples", wit, fmt.Sprintf("track %d: samples read back differ (panic %q err %v)", id, p, err))
-			}
-		}
-	}
+	checkFragments(init, f.Init, enc, wit)
 }
 
 func evalHistory(ops []*op) {
